@@ -1,12 +1,13 @@
 From Coq Require Extraction.
 From Coq Require Import ExtrOcamlBasic.
 From OlaBase Require Import Bytes.
-From C05 Require Import Gen Model Ext Ser.
+From C05 Require Import Gen Model Proofs Ext Proofs2 Proofs3 Ser Proofs5.
 Extraction Language OCaml.
 Extraction "model.ml" io_witness N.div_eucl inflate inflate_request inflate_response inflate_disc_request
   inflate_disc_response from_frame pack pack_o cmd_eq_cpp wf_cmd default_opts NOSTATUS
   mk_frame reply_of_raw pack_append pack_with_start_code response_with_pid response_from_data
   nack_request nack_response duplicate is_request_cc is_response_cc
+  reply_eq res_eq frames_eq inflate_response_bs
   required_size pack_buffer write_iostack set_param_data with_data
   combine_responses reply_from_frame dub_reply frame_eq new_frame
   new_dub new_mute new_unmute is_dub set_request set_response verify_null
